@@ -232,12 +232,17 @@ def avg_enum(L):
 
 def avg_run(ctx, res, cases, hist, correspond=True):
     checks, info = [], []
+    overflows = 0
     for case in cases:
+        if overflows >= 2:
+            res.extra['stopped_after_overflows'] = overflows
+            break
         d = ctx.scratch('c20a')
         try:
             out = avg_execute(case, d)
         finally:
             shutil.rmtree(d, ignore_errors=True)
+        overflows += 1 if out['overflow'] else 0
         n = len(case['progs'])
         hist['avg_contenders'][n] = hist['avg_contenders'].get(n, 0) + 1
         hist['avg_variant'][case['variant']] = hist['avg_variant'].get(case['variant'], 0) + 1
@@ -419,12 +424,17 @@ def thr_gen(rng, n=None):
 
 def thr_run(ctx, res, cases, hist, correspond=True):
     checks, info = [], []
+    overflows = 0
     for case in cases:
+        if overflows >= 2:
+            res.extra['stopped_after_overflows'] = overflows
+            break
         d = ctx.scratch('c20t')
         try:
             out = thr_execute(case, d)
         finally:
             shutil.rmtree(d, ignore_errors=True)
+        overflows += 1 if out['overflow'] else 0
         bad, slack = thr_monitor(case, out)
         for sig, desc in bad:
             res.violations.append(fw.Violation(sig, desc, case))
